@@ -102,7 +102,7 @@ def run(ctx):
     elif rc_ok:
         ctx.ok('R-SHARE', 'D1', opener, None, construct, inst)
     else:
-        ctx.bad('R-SHARE', 'D1', opener, borrower, construct, inst,
+        ctx.bad('R-SHARE', 'D1', opener, borrower, construct, inst, role_key='memmap-opener',
                 detail='whoever opened the map first closes it when it finishes, regardless of other '
                        'users whose lifetimes do not nest: advancing a second iterchunks generator after '
                        'the first is exhausted touches an unmapped page (SIGSEGV)')
